@@ -23,6 +23,7 @@ type Message struct {
 	source  []byte
 	seen    atomic.Bool   // Read by any holder of the message while MarkSeen sets it.
 	el      *list.Element // This message in Store.messages
+	gone    bool          // Removed before the size enforcer registered it; enforcer goroutine only.
 }
 
 var _ storage.Message = &Message{}
